@@ -96,3 +96,16 @@ def concretize(x, lo, hi):
         if x == k:
             return k
     raise AssertionError('value outside the stated range')
+
+
+def make_fn(body, params, name='h'):
+    """A harness function with an explicit signature: body(*values) -> bool; params = [(name, type), ...]."""
+    import inspect
+
+    def h(*args):
+        return body(*args)
+    h.__name__ = name
+    h.__signature__ = inspect.Signature([inspect.Parameter(n, inspect.Parameter.POSITIONAL_OR_KEYWORD, annotation=t) for n, t in params], return_annotation=bool)
+    h.__annotations__ = {n: t for n, t in params}
+    h.__annotations__['return'] = bool
+    return h
